@@ -474,7 +474,18 @@ def rule_n5(ck, prog, S):
         un = [n for n, tt in C.stores(t) if (tt.get("path") or "").endswith("->unit") and n.get("op") == "=" and
               (n.child(1).strip_all_casts().get("path") or "").endswith("->unit")]
         look = list(t.calls("translateUnit"))
-        if mul and un and look and (C.call_args(look[0])[0].strip_all_casts().get("path") or "").endswith("->units"):
+        tab_ok = False
+        if look:
+            a0 = C.call_args(look[0])[0].strip_all_casts()
+            tu_ = prog.fn("translateUnit")
+            if (a0.get("path") or "").endswith("->units"):
+                tab_ok = True
+            elif tu_ is not None and a0.get("path") == t.params[0]["name"] and tu_.params:
+                # the context itself is handed over and the lookup takes the table from it
+                p0 = tu_.params[0]["name"]
+                tab_ok = any(n.k == "MemberExpr" and n.get("member") == "units" and n.child(0).strip_all_casts().get("path") == p0
+                             for n in tu_.pristine().nodes.values())
+        if mul and un and look and tab_ok:
             ck.holds("C04-N5", st, K.loc(t, mul[0]), "value *= row->mult; unit = row->unit; table = context->units")
         else:
             ck.violated("C04-N5", st, K.loc(t), "the multiplier / unit of the row found is not applied to the value")
